@@ -33,15 +33,15 @@ IsSubseqOf(acts, names) ==
 
 -----------------------------------------------------------------------------
 (* Oracle: everything about a description that the clauses need.           *)
-Oracle(g, exact) ==
+Oracle(g, exact, eps) ==
     IF exact
     THEN LET rv == ReachValue(g)
              hb == ReachStepBound(g)
-         IN  [exact |-> TRUE, zero |-> ZeroSet(g), stopping |-> IsStopping(g),
+         IN  [exact |-> TRUE, eps |-> eps, zero |-> ZeroSet(g), stopping |-> IsStopping(g),
               rv  |-> rv,
               rvf |-> TLCEval([s \in States(g) |-> ToFix(rv[s])]),
-              tol |-> TLCEval([s \in States(g) |-> TolNano(ToFix(hb[s]))])]
-    ELSE [exact |-> FALSE, zero |-> ZeroSet(g), stopping |-> IsStopping(g)]
+              tol |-> TLCEval([s \in States(g) |-> TolNanoE(ToFix(hb[s]), eps)])]
+    ELSE [exact |-> FALSE, eps |-> eps, zero |-> ZeroSet(g), stopping |-> IsStopping(g)]
 
 -----------------------------------------------------------------------------
 (* C01: reported reachability probabilities                                *)
@@ -138,7 +138,7 @@ C04Exact(g, orc, p, rs) ==
                 optf  == ToFix(opt)
                 guardOf(j) == LET m == CHOOSE m \in DOMAIN row : vals[m] = opt
                                   ta == orc.tol[row[j].t]  tb == orc.tol[row[m].t]
-                              IN  2 * (IF ta > tb THEN ta ELSE tb) + 2000
+                              IN  2 * (IF ta > tb THEN ta ELSE tb) + 2 * orc.eps
                 must  == {j \in DOMAIN row : vals[j] = opt}
                 mnot  == {j \in DOMAIN row : /\ vals[j] # opt
                                              /\ guardOf(j) < Nano
@@ -162,7 +162,7 @@ C04Exact(g, orc, p, rs) ==
           : s \in {s \in States(g) : g.owner[s] # PR /\ ~rs[s].none} }
 
 \* C04 at sizes without exact values: zones from the reported numbers
-C04Reported(g, p, rs) ==
+C04Reported(g, orc, p, rs) ==
     UNION { LET row  == g.tr[s]
                 kind == g.owner[s]
                 vf   == [j \in DOMAIN row |-> Fx(p[row[j].t])]
@@ -171,19 +171,19 @@ C04Reported(g, p, rs) ==
                 listed == SeqSet(rs[s].acts)
                 \* a value this close to a 6-digit rounding boundary may legitimately
                 \* fall on either side
-                edge(x) == (x[2] % 1000) \in {499, 500, 501}
+                edge(x) == (x[2] % orc.eps) \in {orc.eps \div 2 - 1, orc.eps \div 2, orc.eps \div 2 + 1}
             IN  {"C04.MustAll s=" \o S2(s) \o " a=" \o row[j].a :
                     j \in {j \in DOMAIN row : FixNear(vf[j], optf, 1) /\ ~edge(vf[j]) /\ ~edge(optf)
                                                /\ row[j].a \notin listed}}
                 \cup {"C04.NoClearlyWorse s=" \o S2(s) \o " a=" \o row[j].a :
-                    j \in {j \in DOMAIN row : ClearlyWorse(kind, vf[j], optf, 4000)
+                    j \in {j \in DOMAIN row : ClearlyWorse(kind, vf[j], optf, 4 * orc.eps)
                                                /\ row[j].a \in listed}}
           : s \in {s \in States(g) : g.owner[s] # PR /\ ~rs[s].none} }
 
 RStratClauses(g, orc, p, rs) ==
     LET sh == ShapeClauses(g, rs, "C04", g.tr)
     IN  IF sh # {} \/ Len(p) # g.n THEN sh
-        ELSE IF orc.exact THEN C04Exact(g, orc, p, rs) ELSE C04Reported(g, p, rs)
+        ELSE IF orc.exact THEN C04Exact(g, orc, p, rs) ELSE C04Reported(g, orc, p, rs)
 
 -----------------------------------------------------------------------------
 (* C03: the conditioned transition lists.  nodes[s] : sequence of          *)
@@ -237,7 +237,7 @@ RewardOracle(g, orc, p, rs, prune) ==
                  hb == RewardStepBound(Gc, Dom)
              IN  [ok |-> TRUE, stop |-> TRUE, Gc |-> Gc, Dom |-> Dom, rv |-> rv,
                   rvf |-> TLCEval([s \in Dom |-> ToFix(rv[s])]),
-                  tol |-> TLCEval([s \in Dom |-> TolNano(ToFix(hb[s]))]),
+                  tol |-> TLCEval([s \in Dom |-> TolNanoE(ToFix(hb[s]), orc.eps)]),
                   acyclic |-> AcyclicOn(Gc, Dom)]
 
 RewardClauses(ro, rew) ==
